@@ -102,6 +102,28 @@ void goi(Rng& rng)
 }
 #endif
 
+#if defined(SEC_C04X)
+// conversion between scaled_integers of different radixes
+template<class R1, int E1, int RX1, class R2, int E2, int RX2>
+void gox(Rng& rng)
+{
+    using A = scaled_integer<R1, power<E1, RX1>>;
+    using B = scaled_integer<R2, power<E2, RX2>>;
+    std::vector<R1> lv;
+    if constexpr (sizeof(R1) <= 2)
+        lv = all_vals<R1>();
+    else
+        lv = vals<R1>(rng, 200 * scale_from_env(), 1);
+    for (R1 a : lv) {
+        A x = _impl::from_rep<A>(a);
+        printf("C04 cvtx %d %s %d %d %s %d ", RX1, tn<R1>().c_str(), E1, RX2, tn<R2>().c_str(), E2);
+        prv(a);
+        fputs(" => ", stdout);
+        VH_RUN(B{x}, print_sc)
+    }
+}
+#endif
+
 #if defined(SEC_C04F)
 #include "vhf.h"
 // scaled_integer <-> floating point
